@@ -38,6 +38,11 @@ def build_world(shape):
     # the same peptide written with the modifications of each site in two different orders
     W['C'] = p.parse('[Formyl][Acetyl]-P[Phospho][1]EK[Oxidation]')
     W['C2'] = p.parse('[Acetyl][Formyl]-P[1][Phospho]EK[Oxidation]')
+    # labile + unknown-position + N-terminal modifications and no isotope label (the direct mass path)
+    W['E'] = p.parse('{Glycan:Hex}[Phospho]?[Acetyl]-PEK[1.5]-[Amidated]')
+    # two peptides modified at DIFFERENT positions (a comparison looks positions up in both)
+    W['D1'] = p.parse('P[Oxidation]EPTIDEPEP[Phospho]K')
+    W['D2'] = p.parse('PEP[Phospho]')
     W['rules'] = {'K': ['Methyl'], 'T': [p.Mod('Phospho', 1)]}
     W['nrule'] = ['Formyl']
     W['vrules'] = {'K': [['Methyl'], ['Dimethyl']], 'P': 'Oxidation'}
@@ -270,6 +275,15 @@ def L(p):
     # a cross-linker (its table row has no average mass: the library derives it)
     t['mod_mass-xlmod-avg-precision'] = lambda W: (p.mod_mass('X:DSS', False, 1), p.mod_mass('XLMOD:02001', False, 0))
     t['mass-xlmod-avg'] = lambda W: (p.mass('PEK[X:DSS]K', monoisotopic=False), p.mod_mass('X:DSS', False))
+    t['mass-E'] = lambda W: (p.mass(W['E']), p.mz(W['E'], charge=2), p.mass(W['E'], ion_type='b', charge=1),
+                             p.mass(W['E'], monoisotopic=False))
+    t['comp-fragment-E'] = lambda W: (p.comp_mass(W['E']), p.fragment(W['E'], ['b', 'y'], [1], return_type='mz'),
+                                      p.condense_to_mass_mods(W['E']), W['E'].serialize())
+    t['D.__eq__'] = lambda W: (W['D1'] == W['D2'], W['D2'] != W['D1'], W['D1'] == W['D1'].copy())
+    t['search-D'] = lambda W: (p.find_subsequence_indices(W['D1'], W['D2']), p.is_subsequence(W['D2'], W['D1']),
+                               p.is_subsequence(W['D2'], W['D1'], order=False), p.coverage(W['D1'], [W['D2']]))
+    t['D.describe'] = lambda W: (W['D2'].dict(), W['D1'].count_modified_residues(), p.get_mods(W['D2']),
+                                 p.apply_static_mods(W['D2'], {'P': 'Acetyl'}))
     t['C.__eq__'] = lambda W: (W['C'] == W['C2'], W['C2'] != W['C'])
     t['find_subsequence_indices-C'] = lambda W: p.find_subsequence_indices(W['C'], W['C2'])
     t['is_subsequence-C'] = lambda W: (p.is_subsequence(W['C2'], W['C']), p.is_subsequence(W['C2'], W['C'], order=False))
@@ -298,7 +312,7 @@ def labels():
 
 
 # labels known (by reading) to touch caller-owned objects or global state: first/second element of thorough triples
-TOUCHY = ['mass-composite-glycan', 'binomial_score-mzlist', 'mod_mass-precision', 'C.__eq__', 'shared-Fragmenter-ml2', 'fragment-avg', 'apply_isotope_mods_to_composition-str', 'mod_comp-str', 'split', 'A.split', 'permutations', 'A.permutations', 'product', 'combinations', 'combinations_with_replacement',
+TOUCHY = ['mass-E', 'D.__eq__', 'search-D', 'mass-composite-glycan', 'binomial_score-mzlist', 'mod_mass-precision', 'C.__eq__', 'shared-Fragmenter-ml2', 'fragment-avg', 'apply_isotope_mods_to_composition-str', 'mod_comp-str', 'split', 'A.split', 'permutations', 'A.permutations', 'product', 'combinations', 'combinations_with_replacement',
           'fragment', 'fragment-losses', 'Fragmenter', 'condense_to_mass_mods', 'isotopic_distribution', 'isotopic_distribution-zeros',
           'get_fragment_matches', 'shuffle-seed', 'A.shuffle-seed', 'fix_list_of_mods', 'create_annotation',
           'create_annotation-raw', 'comp_mass', 'count_residues', 'apply_static_mods', 'apply_variable_mods',
